@@ -310,7 +310,15 @@ def _history_table(prog: Program, ctx: Ctx) -> None:  # noqa: PLR0912,PLR0915
                                             ("tuple", lambda: it.call(meth(coll, "get_member"), coll, (*cpath, sub))),
                                             ("chained", lambda: it.call(meth(child, "get_member"), child, sub))):
                             try:
-                                seen_paths_[form] = it.getattr(call_(), "path")
+                                seen_ = call_()
+                                seen_paths_[form] = it.getattr(seen_, "path")
+                                # ... and it stands for the member the target has *now* (after a replacement under the same name, too)
+                                cur_ = tgt.attrs["members"][sub]
+                                if isinstance(seen_, Obj) and seen_.cls is not None and seen_.cls.name == "Alias" and seen_.attrs.get("_target") is not cur_ and seen_ is not cur_:
+                                    stale_ = seen_.attrs.get("_target")
+                                    problems.append(f"{form} lookup of {want_path} through the alias {'.'.join(cpath)} stands for "
+                                                    f"{'a detached object (no longer a member of ' + it.getattr(tgt, 'path') + ')' if isinstance(stale_, Obj) else repr(stale_)}, "
+                                                    f"not for the current member {it.getattr(cur_, 'path')}")
                             except Raised as r:
                                 seen_paths_[form] = f"raises {r.exc}"
                         if set(seen_paths_.values()) != {want_path}:
